@@ -6,4 +6,5 @@ APPENDS = {
     "rustzx-core/src/zx/controller.rs": ["kani/core/append_controller.rs"],
     "rustzx-core/src/zx/joy/kempston.rs": ["kani/core/append_kempston.rs"],
     "rustzx-core/src/emulator/mod.rs": ["kani/core/append_emulator.rs"],
+    "rustzx-core/src/zx/sound/mixer.rs": ["kani/core/append_mixer.rs"],
 }
